@@ -1811,6 +1811,8 @@ def evaluate__round(self: XPathFunction, context: ta.ContextType = None) \
         return []
     elif isinstance(arg, XPathNode) or self.parser.compatibility_mode:
         arg = self.number_value(arg)
+    elif isinstance(arg, UntypedAtomic):
+        arg = self.cast_to_double(arg.value)  # function conversion rules: untyped -> xs:double
     elif isinstance(arg, (bool, str)):
         raise self.error('XPTY0004', "the argument is not a number")
 
